@@ -698,6 +698,12 @@ def ite(c, a, b):
     """If(c, a, b) over proxy values"""
     if a is b:
         return a
+    if type(a) is type(b) and not isinstance(a, (int, float, bool)) and not is_symbolic(a) and not is_symbolic(b):
+        try:
+            if a == b:
+                return a          # two equal concrete values (e.g. the same constant returned on two paths)
+        except Exception:
+            pass
     for cls in (SymFloat,):
         if isinstance(a, (SymFloat, float)) or isinstance(b, (SymFloat, float)):
             a2, b2 = SymFloat.lift(a), SymFloat.lift(b)
@@ -914,8 +920,6 @@ class SymBytesVar:
 def int_from_bytes(b, byteorder="big", *, signed=False):
     if not isinstance(b, SymBytes):
         return builtins.int.from_bytes(b, byteorder, signed=signed)
-    if signed:
-        raise Unsupported("from_bytes signed")
     items = b.items if byteorder == "big" else b.items[::-1]
     if not items:
         return 0
@@ -923,6 +927,10 @@ def int_from_bytes(b, byteorder="big", *, signed=False):
     for e in items:
         e = SymInt.lift(e)
         parts.append(z3.Extract(7, 0, e.ext(9)))
+    if signed:
+        # two's complement of the whole byte string (SymInt terms are signed bit-vectors): sign-extend by one bit
+        body = z3.Concat(*parts) if len(parts) > 1 else parts[0]
+        return SymInt(z3.SignExt(1, body))
     return SymInt(z3.Concat(z3.BitVecVal(0, 1), *parts) if len(parts) > 0 else parts[0])
 
 
